@@ -108,6 +108,9 @@ class Engine(InterpMixin, AttrMixin):
         self.pc.append(t)
         if why:
             self.assumed.append((why, t))
+        w = self.__dict__.setdefault("assume_whys", {})
+        key = why or "(precondition / branch fact stated without a reason string)"
+        w[key] = w.get(key, 0) + 1
 
     def feasible(self, extra):
         s = z3.Solver()
